@@ -53,7 +53,7 @@ def instances(tier):
          "caps": {}},
         # u16 scaled to 7 and the timeouts to 4, so that only a press held back for a whole timeout (not the one or two
         # ticks every event spends in the queue) overflows `delay + ticks`: the witnesses stay witnesses at the real scale
-        {"name": "wdelay", "depth": (11, 12), "keys": ["a", "b"], "qkeys": ["a"], "kinds": ["d", "u"],
+        {"name": "wdelay", "depth": (11, 11), "keys": ["a", "b"], "qkeys": ["a"], "kinds": ["d", "u"],
          "kbd": "(defcfg rapid-event-delay 4)\n(defsrc a b c)\n(deflayer l0 (tap-hold 0 4 x y) (tap-hold 0 4 z w) (one-shot 4 lsft))\n",
          "caps": {"u16max": 7, "since": 7},
          "scaled": {"tick": 9363,
@@ -76,6 +76,9 @@ def instances(tier):
         I.append({"name": "switch_layers", "depth": (6, 8), "keys": ["a", "b", "c"], "kinds": ["d", "u"],
                   "kbd": "(defsrc a b c)\n(deflayer l0 (layer-while-held l1) (switch (a) x break () (layer-while-held l1) fallthrough) (macro-repeat x))\n"
                          "(deflayer l1 _ _ (layer-while-held l1))\n", "caps": {"hist": 1}})
+    # cheapest first: the time budget of the tier is spent in this order
+    order = ["chv2_flood", "switch_layers", "chords_td", "wrapping", "index_rpt", "layers", "wdelay"]
+    I.sort(key=lambda i: order.index(i["name"]) if i["name"] in order else len(order))
     return I
 
 
@@ -160,7 +163,7 @@ def capacity_submodel(tier, seed, wd, acc, run_all, mkjob, notes):
     out = {"instances": [], "states": 0, "generated": 0, "sites_in_model": {}, "caps": CAPS}
     # one instance at a time with 8 TLC workers (the machine is shared); every instance is depth bounded, and a
     # timeout keeps the witnesses of the completed levels instead of failing the check
-    budget = 100 if tier == "quick" else 700
+    budget = 100 if tier == "quick" else 800
     results = []
     for i in insts:
         left = budget - (time.time() - t0)
